@@ -12,7 +12,7 @@ MANIFEST = {
             '2 books x 2 sheets, every constant kind at every constant, is loaded by dictionary and from real .xlsx files and calculated; every cell is '
             'compared with an independent lazy reference evaluator. For each shape the dictionary insertion order (all adjacent transpositions, rotations, reversal; '
             'all permutations for small dictionaries), book load order, sheet order and the order of range assembly (all permutations at the seam) are permuted, '
-            'and a fixed sub-family is recomputed in fresh interpreters under PYTHONHASHSEED 0..7 (thorough 0..31). Hand-written workbooks add wiring patterns the family cannot express: one range feeding two operands of one formula (inside pre-computed unions/intersections), names of a linked book used by that book\'s formulas and loaded through completion only, the same sheet name in two books, array formulas whose result shape differs from their range (row into column, 2x3 into 3x2) with readers sorting before and after them under every insertion order, numeric external links [n]Sheet!A1 with unloadable entries before/after the real book in the link table.' ' Later additions: hand-written workbooks for array formulas that do not fit their range, numeric external links, spill anchors reached on demand only (lazy-array, wide-array); workbooks with whole-column references run in a memory-bound space of their own (fresh child per case).',
+            'and a fixed sub-family is recomputed in fresh interpreters under PYTHONHASHSEED 0..7 (thorough 0..31). Hand-written workbooks add wiring patterns the family cannot express: one range feeding two operands of one formula (inside pre-computed unions/intersections), names of a linked book used by that book\'s formulas and loaded through completion only, the same sheet name in two books, array formulas whose result shape differs from their range (row into column, 2x3 into 3x2) with readers sorting before and after them under every insertion order, numeric external links [n]Sheet!A1 with unloadable entries before/after the real book in the link table.' ' Later additions: hand-written workbooks for array formulas that do not fit their range, numeric external links, spill anchors reached on demand only (lazy-array, wide-array), the spill operator (C1#, ANCHORARRAY, _xlfn.ANCHORARRAY) over an array formula of the same sheet or of a linked workbook loaded in either order or on demand only, with five readers and hand-written expectations; workbooks with whole-column references run in a memory-bound space of their own (fresh child per case).',
     'note': 'Trusted: ref/wbeval.py + ref/scalar.py for the vocabulary + - * & SUM, cell/range/whole-column/name/array-formula references. '
             'Sheet-local names are out of scope (loader skips them by design).',
 }
@@ -356,7 +356,94 @@ def run_seed(case):
     return res
 
 
+# ---- the spill operator (C1# / ANCHORARRAY(C1)) over an array formula of the same sheet or of a linked workbook that is
+# loaded explicitly (either order) or only on demand; expectations written by hand (the reference evaluator has no such node)
+SPILL_READERS = [('SUM(%s)', 12.0), ('SUM(%s)+1', 13.0), ('MAX(%s)*10', 60.0), ('INDEX(%s,2)', 4.0), ('COUNT(%s)', 3.0)]
+SPILL_SPELL = ['%s#', '_xlfn.ANCHORARRAY(%s)', 'ANCHORARRAY(%s)']
+
+
+def spillop_cases(tier):
+    for load in ('main', 'main+calc', 'calc+main'):
+        for link in ('numeric', 'name'):
+            for first in range(len(SPILL_READERS)):
+                yield ['spillop', load, link, first]
+
+
+def run_spillop(case):
+    _, load, link, first = case
+    import openpyxl, formulas
+    from openpyxl.worksheet.formula import ArrayFormula
+    from openpyxl.packaging.relationship import Relationship
+    from openpyxl.workbook.external_link.external import ExternalLink, ExternalBook, ExternalSheetNames
+    from xl import wbspec as X
+    from xl.evalcell import exc_name
+    fails, ex, oc = [], 0, []
+    readers = SPILL_READERS[first:] + SPILL_READERS[:first]
+    cwd = os.getcwd()
+    with X.Scratch() as d:
+        wb = openpyxl.Workbook()
+        ws = wb.active
+        ws.title = 'CALC'
+        for i, v in enumerate((1, 2, 3), 1):
+            ws['A%d' % i] = v
+        ws['C1'] = ArrayFormula('C1:C3', '=A1:A3*2')
+        exp = {}
+        for i, (tpl, val) in enumerate(readers):
+            sp = SPILL_SPELL[i % 3]
+            ws['E%d' % (i + 1)] = '=' + tpl % (sp % 'C1')
+            exp[('CALC.XLSX', 'CALC', 'E%d' % (i + 1))] = val
+        wb.save(os.path.join(d, 'calc.xlsx'))
+        wb = openpyxl.Workbook()
+        ws = wb.active
+        ws.title = 'MAIN'
+        if link == 'numeric':
+            el = ExternalLink(externalBook=ExternalBook(sheetNames=ExternalSheetNames(sheetName=['CALC'])))
+            el.file_link = Relationship(type='externalLinkPath', Target='calc.xlsx', TargetMode='External')
+            wb._external_links.append(el)
+        pre = '[1]CALC!' if link == 'numeric' else "'[calc.xlsx]CALC'!"
+        for i, (tpl, val) in enumerate(readers):
+            sp = SPILL_SPELL[(i + 1) % 3]
+            ws['A%d' % (i + 1)] = '=' + tpl % (sp % (pre + 'C1'))
+            exp[('MAIN.XLSX', 'MAIN', 'A%d' % (i + 1))] = val
+        ws['B1'] = '=A1*10'
+        exp[('MAIN.XLSX', 'MAIN', 'B1')] = readers[0][1] * 10
+        wb.save(os.path.join(d, 'main.xlsx'))
+        os.chdir(d)
+        try:
+            files = {'main': ['main.xlsx'], 'main+calc': ['main.xlsx', 'calc.xlsx'], 'calc+main': ['calc.xlsx', 'main.xlsx']}[load]
+            sol = formulas.ExcelModel().loads(*files).finish().calculate()
+            ex += 1
+        except Exception as e:
+            os.chdir(cwd)
+            return result(1, ['escape'], [Fail('escape', got='%s:%s' % (exc_name(e), str(e)[:150]), exp='a solution', load=load, link=link)])
+        finally:
+            os.chdir(cwd)
+        got = {}
+        for k, v in sol.items():
+            try:
+                g = v.ranges[0]
+                if g['r1'] == g['r2'] and g['n1'] == g['n2']:
+                    got[(g['filename'].upper(), g['sheet'].upper(), '%s%s' % (g['c1'], g['r1']))] = v.value[0, 0]
+            except Exception:
+                pass
+        for k, val in sorted(exp.items()):
+            if load == 'main' and k[0] == 'CALC.XLSX':
+                continue        # readers inside the linked book are not part of a model completed from main.xlsx
+            ex += 1
+            x = got.get(k, 'ABSENT')
+            try:
+                ok = float(x) == val
+            except Exception:
+                ok = False
+            oc.append('spillop:' + ('ok' if ok else 'differs'))
+            if not ok:
+                fails.append(Fail('spill-operator-value', got=repr(x)[:60], exp=val, cell='|'.join(k), load=load, link=link))
+    return result(ex, sorted(set(oc)), fails[:6])
+
+
 def run_case(case):
+    if isinstance(case, list) and case[0] == 'spillop':
+        return run_spillop(case)
     if isinstance(case, list) and case[0] == 'seed':
         r = run_seed(case)
         # replay of a seed case: compare with seed 0
@@ -376,6 +463,7 @@ def run(ctx):
     ctx.explore(run_case, [c for c in wbs if not heavy(c)], chunksize=8, label='workbooks')
     ctx.explore(run_case, [c for c in scs if not heavy(c)], chunksize=2, label='schedules')
     ctx.explore(run_case, [c for c in wbs + scs if heavy(c)], chunksize=1, label='whole_column_workbooks', nproc=8)
+    ctx.explore(run_case, spillop_cases(ctx.tier), chunksize=1, label='spill_operator_over_linked_array_formulas')
     # free-running hash seeds (separate processes, no seams)
     from mc.core import pmap
     seeds = list(range(8 if ctx.tier == 'quick' else 32))
